@@ -95,6 +95,7 @@ func c19Trunc(b []byte, n int) string {
 	return string(b)
 }
 
+// c19SnapDirs reads the dynamic-mode directories: per directory the file contents by file name.
 func c19SnapDirs(dirs []c19DynDir) map[string]interface{} {
 	snap := map[string]interface{}{}
 	for _, d := range dirs {
@@ -114,6 +115,27 @@ func c19SnapDirs(dirs []c19DynDir) map[string]interface{} {
 		snap[filepath.Base(d.Path)] = files
 	}
 	return snap
+}
+
+// c19SnapCanon: the content of the directories as multisets of documents (a file name is not configuration: an
+// element without a name is stored under a time-stamp name).
+func c19SnapCanon(snap map[string]interface{}) string {
+	dirs := make([]string, 0, len(snap))
+	for d := range snap {
+		dirs = append(dirs, d)
+	}
+	sort.Strings(dirs)
+	var sb strings.Builder
+	for _, d := range dirs {
+		files, _ := snap[d].(map[string]interface{})
+		docs := make([]string, 0, len(files))
+		for _, v := range files {
+			docs = append(docs, c19Canon(v))
+		}
+		sort.Strings(docs)
+		sb.WriteString(d + ":" + strings.Join(docs, "\n") + "\n")
+	}
+	return sb.String()
 }
 
 func c19DirItems(snap map[string]interface{}, d c19DynDir) []interface{} {
@@ -190,7 +212,7 @@ func c19CodecCheck(root c19Root, node *c19Node, fBytes []byte, dirs []c19DynDir,
 	}
 
 	// oracle 1: second dump == first dump
-	if c19Canon(d1Gen) != c19Canon(d2Gen) || c19Canon(snap1) != c19Canon(snap2) {
+	if c19Canon(d1Gen) != c19Canon(d2Gen) || c19SnapCanon(snap1) != c19SnapCanon(snap2) {
 		k := &c19Leaf{seen: map[string]struct{}{}}
 		k.walk(node, nil, false, d1Gen, d2Gen, true, "$", "$", nil)
 		k.walk(node, nil, false, d2Gen, d1Gen, true, "$", "$", nil)
@@ -370,7 +392,7 @@ func c19SampleFiles() []string {
 func c19Codec(c *lab.Ctx) {
 	c.Rule("codec: random valid configurations generated at the JSON level from the struct tags of the v2 type graph (28 root types; every field, durations, byte sizes, CIDR, free-form per-filter maps, dynamic cluster/router directories; independent of the Go marshalers), each through Unmarshal→Marshal→Unmarshal→Marshal (a subset through the ghodss/yaml path); oracles: canonical second dump == first dump, reflective model equivalence (nil≡empty), every input value at a path the tags understand present with equal value and type in the dump; plus every shipped sample file; distinct = (root type, set of schema fields present)")
 	rng := c.Rand("codec")
-	total := c.Pick(10000, 400000)
+	total := c.Pick(10000, 1200000)
 	n := total / c.NBatch
 	nodes := make([]*c19Node, len(c19Roots))
 	wsum := 0
@@ -386,9 +408,19 @@ func c19Codec(c *lab.Ctx) {
 	dynBase := filepath.Join(c.Out, "dyn")
 	_ = os.RemoveAll(dynBase)
 
-	emit := func(caseNo int, root c19Root, node *c19Node, o c19Outcome, fVal interface{}, fBytes []byte, viaYAML bool, dyn bool, src string) {
+	emit := func(caseNo int, root c19Root, node *c19Node, o c19Outcome, fVal interface{}, fBytes []byte, viaYAML bool, dirs []c19DynDir, src string) {
+		dyn := len(dirs) > 0
 		for _, v := range o.Vios {
 			wit := map[string]interface{}{"case": caseNo, "root": root.Name, "via_yaml": viaYAML, "source": src}
+			if dyn { // the files of the directories the input refers to (one element per file)
+				dd := map[string]interface{}{}
+				for _, d := range dirs {
+					dd[d.Ref] = d.Items
+				}
+				if b := c19MustJSON(dd); len(b) < 6000 {
+					wit["directories"] = json.RawMessage(b)
+				}
+			}
 			for k, x := range v.Info {
 				wit[k] = x
 			}
@@ -426,7 +458,7 @@ func c19Codec(c *lab.Ctx) {
 		root, node := c19Roots[ri], nodes[ri]
 		g.p = []int{12, 25, 40, 60, 90}[g.r.Intn(5)]
 		g.budget = []int{30, 80, 200, 500}[g.r.Intn(4)]
-		g.dynamic = g.r.Intn(4) == 0
+		g.dynamic = g.r.Intn(3) == 0
 		g.dynDir = filepath.Join(dynBase, fmt.Sprintf("c%d", i))
 		viaYAML := root.Name == "MOSNConfig" && i%8 == 3
 		fVal := g.value(node, "", 18)
@@ -473,7 +505,7 @@ func c19Codec(c *lab.Ctx) {
 		if i%2500 == 1 && len(fBytes) < 1500 {
 			c.Sample(map[string]interface{}{"case": i, "root": root.Name, "input": json.RawMessage(fBytes), "dump": json.RawMessage(o.D1)})
 		}
-		emit(i, root, node, o, fVal, fBytes, viaYAML, len(g.dirs) > 0, "generated")
+		emit(i, root, node, o, fVal, fBytes, viaYAML, g.dirs, "generated")
 		if len(g.dirs) > 0 {
 			_ = os.RemoveAll(g.dynDir)
 		}
@@ -481,9 +513,12 @@ func c19Codec(c *lab.Ctx) {
 	_ = os.RemoveAll(dynBase)
 
 	// the shipped samples through the same pipeline (batch 0 only)
-	if c.Batch == 0 && replay < 0 {
+	if c.Batch == 0 && (replay < 0 || replay >= 1000000) {
 		root, node := c19Roots[0], nodes[0]
 		for si, p := range c19SampleFiles() {
+			if replay >= 0 && replay != 1000000+si {
+				continue
+			}
 			c.Case("sample %d %s", si, p)
 			b, err := os.ReadFile(p)
 			if err != nil {
@@ -511,7 +546,7 @@ func c19Codec(c *lab.Ctx) {
 			shape := map[string]struct{}{}
 			c19Shape(node, fVal, shape)
 			c.Distinct("sample|" + c19ShapeString(shape))
-			emit(1000000+si, root, node, o, fVal, b, isYAML, false, strings.TrimPrefix(p, "/repo/"))
+			emit(1000000+si, root, node, o, fVal, b, isYAML, nil, strings.TrimPrefix(p, "/repo/"))
 		}
 	}
 
